@@ -430,3 +430,7 @@ impl ValueToFrameWriter<()> for OpenNotifyFrameWriter {
         })
     }
 }
+
+#[cfg(all(aws_s2n_quic_verif, any(test, all(kani, feature = "testing"))))]
+#[path = "/verif/harness/transport/local_initiated.rs"]
+mod verif;
